@@ -157,6 +157,62 @@ def _huge(o, budget=[0]):
     return walk(o)
 
 
+def record_threads(gb, models, nthreads=8, rounds=30):
+    """the same values serialized by several threads at once (every Channel.send serializes on the caller's thread): what each call
+    returns must still be the encoding of its own value.  One dump case per value: the bytes of a concurrent call that differ from the
+    single-threaded ones if there was such a call, else the single-threaded bytes."""
+    import threading
+
+    objs = [pyval.from_model(m) for m in models]
+    funcs = [gb.dumps_internal if i % 2 == 0 else gb.dumps for i in range(len(objs))]
+    base, odd = [], {}
+    for f, o in zip(funcs, objs):
+        try:
+            base.append(f(o))
+        except BaseException as e:  # noqa: BLE001
+            base.append(e)
+    old = sys.getswitchinterval()
+    sys.setswitchinterval(1e-6)
+    start = threading.Barrier(nthreads)
+
+    def work(t):
+        start.wait()
+        for _ in range(rounds):
+            for i in range(t, len(objs), max(1, nthreads // 2)):   # neighbours overlap: two threads per value
+                if isinstance(base[i], BaseException) or i in odd:
+                    continue
+                try:
+                    b = funcs[i](objs[i])
+                except BaseException as e:  # noqa: BLE001
+                    odd[i] = e
+                    continue
+                if b != base[i]:
+                    odd[i] = b
+
+    ths = [threading.Thread(target=work, args=(t,)) for t in range(nthreads)]
+    try:
+        for t in ths:
+            t.start()
+        for t in ths:
+            t.join()
+    finally:
+        sys.setswitchinterval(old)
+    cases = []
+    for i, o in enumerate(objs):
+        got = odd.get(i, base[i])
+        internal = funcs[i] is gb.dumps_internal
+        if isinstance(got, BaseException):
+            cases.append({"k": "dump", "v": pyval.to_model(o), "internal": internal, "out": ["exc", exc_name(got)], "back": ["na"], "mode": "threads"})
+            continue
+        try:
+            r = gb.loads_internal(got) if internal else gb.loads(got)
+            back = ["value", pyval.to_model(r)]
+        except BaseException as e:  # noqa: BLE001
+            back = ["exc", exc_name(e)]
+        cases.append({"k": "dump", "v": pyval.to_model(o), "internal": internal, "out": ["bytes", list(got)], "back": back, "mode": "threads"})
+    return cases
+
+
 def run_job(job):
     import execnet.gateway_base as gb
 
@@ -171,6 +227,8 @@ def run_job(job):
     for m in job.get("dump", []):
         for mode in job.get("modes", ["dumps"]):
             cases.append(record_dump(gb, m, mode))
+    if job.get("threads"):
+        cases += record_threads(gb, job["threads"])
     for ld in job.get("load", []):
         cases.append(record_load(gb, ld["inp"], ld["cfg"], ld.get("prefix", False), ld.get("stream", False), ld.get("defaults", False)))
     return cases
